@@ -336,6 +336,7 @@ func init() {
 			ws.Floor("query_mode_prologues", 25)
 			res.Merge(ws.Only("WORKSIZE.querylen"))
 
+			res.Merge(matargs.RunAccess(def))
 			ma := matargs.Run(def)
 			ma.Floor("methods_with_checks", 140)
 			ma.Floor("shape_checks", 240)
@@ -351,6 +352,9 @@ func init() {
 		explanation: "Decides structural necessary conditions of C04 for every function of mat: TWIN.sync — the receiver-sizing pairs reuseAsNonZeroed/reuseAsZeroed ('must be kept in sync') of six types differ only by use/useZeroed and the final Zero(); TWIN.bounds — the bounds and default element accessors check the same guards and address the same Data element on every access path; CONFIG — mat type-checks with one API under bounds/safe; STRIDE — every Data[...] index/slice and every (Data, Stride) pair handed to blas64/lapack64 uses the stride of the same matrix (views with Stride > Cols are addressed with their own stride everywhere). NILRECV — no call in mat passes a constant nil pointer to a function that dereferences it on every path (found and repaired: Cholesky.SymRankOne panicked for every Vector that is not a RawVectorer — a result depending on the operand's concrete type). Does not decide agreement of specialised dispatch arms with the generic At loop.",
 		assumptions: commonAssumptions,
 		run: func(tier string, res *core.Result) {
+			ac := matargs.RunAccess(def)
+			ac.Floor("index_access_checks", 60)
+			res.Merge(ac)
 			sg := matargs.RunSelfGuard(def)
 			sg.Floor("receiver_identity_tests", 30)
 			res.Merge(sg)
@@ -636,6 +640,9 @@ func init() {
 				od.Floor("isSame_absent_comparisons", 9)
 				od.Floor("receiver_iterator_consumers", 1)
 				res.Merge(od)
+				rl := graphinv.RunRelit(c, "./graph/simple", "./graph/multi")
+				rl.Floor("receiver_rebuilding_literals", 2)
+				res.Merge(rl)
 				ex := graphinv.RunExpose(c)
 				ex.Floor("ordered_iterator_constructions", 30)
 				res.Merge(ex)
@@ -798,6 +805,8 @@ func dump(argv []string) {
 			pk = []string{"./..."}
 		}
 		res = config.Run(config.Matrix(tier), pk)
+	case "graphrelit":
+		res = graphinv.RunRelit(def, argv[1:]...)
 	case "graphexpose":
 		res = graphinv.RunExpose(def)
 	case "graphorder":
@@ -848,6 +857,8 @@ func dump(argv []string) {
 		res = goproto.RunLatch(def, core.Pkgs(argv[1:]...))
 	case "initcomplete":
 		res = initx.RunComplete(def, argv[1:]...)
+	case "mataccess":
+		res = matargs.RunAccess(def)
 	case "betascale":
 		res = flagx.RunBetaScale(def, core.Pkgs(argv[1:]...))
 	case "guardop":
